@@ -58,10 +58,12 @@ def gen(rng, depth, in_tr):
         st['sattr'] = rng.choice(['Tit le', 'Hello  there', 'x &amp; y', ''])
         if rng.random() < .6:
             st['i18nattr'] = rng.choice([None, 'tid'])
+            st['i18npad'] = rng.randrange(28)
         if st['sattr'] == '':
             # an attribute that is empty as written: with an explicit message id it is translated like any other
             # (without one the statement does not say whether '' is a message)
             st['i18nattr'] = 'tid'
+            st['i18npad'] = rng.randrange(28)
     if 'translate' in st and st['translate'] == '' and rng.random() < .15:
         st['content'] = True         # tal:content="v" + i18n:translate=""
     kids = []
@@ -104,7 +106,11 @@ def ser(n):
     if 'sattr' in st:
         a += ' title="%s"' % st['sattr']
     if 'i18nattr' in st:
-        a += ' i18n:attributes="title%s"' % ('' if st['i18nattr'] is None else ' ' + st['i18nattr'])
+        # white space around the items of the statement (a blank or a line break before the closing
+        # quote, several blanks between name and id) is no part of a name or of a message id
+        pad = ['', '', ' ', '\t', '\n   ', '  ', '\n'][st.get('i18npad', 0) % 7]
+        gap = [' ', ' ', '  ', '\n  '][st.get('i18npad', 0) % 4]
+        a += ' i18n:attributes="title%s%s"' % ('' if st['i18nattr'] is None else gap + st['i18nattr'], pad)
     if 'translate' in st:
         a += ' i18n:translate="%s"' % st['translate']
     if 'content' in st:
